@@ -30,6 +30,8 @@ pub enum Step {
     CloseStream(StreamId),
     /// position-sweep marker: the running context becomes the victim
     Mark,
+    /// (future bodies) the future wakes its own waker in the middle of a poll
+    WakeSelf,
 }
 
 #[derive(Clone, Debug, Serialize, Deserialize, PartialEq)]
